@@ -303,4 +303,10 @@ CASES = [
     dict(id="twin-camel-case-rename-local", prop="*", kind="twin", file="utils/case.py",
          old='    items = re.split(r"[_-]", to_snake_case(s))\n    return items[0].lower() + "".join(x.capitalize() for x in items[1:])',
          new='    words = re.split(r"[_-]", to_snake_case(s))\n    return words[0].lower() + "".join(w.capitalize() for w in words[1:])'),
+    dict(id="c01-sub-init-unfiltered-types", prop="C01", kind="mutant", file="templates/%namespace/%name_%version/%sub/__init__.py.j2",
+         old="{% for proto in api.protos.values()|sort(attribute='name')\n        if proto.meta.address.subpackage == api.subpackage_view %}\n{% for message in proto.messages.values()|sort(attribute='name') %}\nfrom .types",
+         new="{% for proto in api.protos.values()|sort(attribute='name') %}\n{% for message in proto.messages.values()|sort(attribute='name') %}\nfrom .types"),
+    dict(id="c14-new-root-package-selector", prop="C14", kind="mutant", file="samplegen/samplegen.py",
+         old='    service = api_schema.services[sample["service"]]\n    method = service.methods[sample["rpc"]]\n    async_ =',
+         new='    service = api_schema.services[f"{api_schema.naming.proto_package}.{sample[\'service\'].rsplit(\'.\', 1)[-1]}"]\n    method = service.methods[sample["rpc"]]\n    async_ ='),
 ]
